@@ -222,6 +222,12 @@ impl RawConnectorBuilder {
                     "must be ascending order",
                 ));
             }
+            if id > usize::from(u16::MAX) {
+                return Err(VibratoError::invalid_format(
+                    "bigram.right",
+                    "must be no more than 65535 ids",
+                ));
+            }
             feat_template_size = feat_template_size.max(feat_ids.len());
             right_feat_ids_tmp.push(feat_ids);
         }
@@ -235,6 +241,12 @@ impl RawConnectorBuilder {
                 return Err(VibratoError::invalid_format(
                     "bigram.left",
                     "must be ascending order",
+                ));
+            }
+            if id > usize::from(u16::MAX) {
+                return Err(VibratoError::invalid_format(
+                    "bigram.left",
+                    "must be no more than 65535 ids",
                 ));
             }
             feat_template_size = feat_template_size.max(feat_ids.len());
